@@ -195,7 +195,13 @@ func (g *gen) hollow(k int) int {
 		return -1
 	}
 	in := g.infos[k]
-	switch g.r.Intn(7) {
+	switch g.r.Intn(9) {
+	case 7, 8:
+		// a whole dimension emptied: SetFloatNData with an EMPTY or nil map, for a dimension the member has attributes in
+		if kd, _, ok := g.someAttr(k, 0); ok {
+			return g.push(Op{Op: "setdata", I: k, K: kd, Maps: map[string][][]float64{}, Nil: g.r.Bool()})
+		}
+		return g.push(Op{Op: "setdata", I: k, K: g.r.Range(1, 4), Maps: map[string][][]float64{}, Nil: g.r.Bool()})
 	case 0, 1, 2:
 		if g.r.Bool() {
 			return g.push(Op{Op: "setindices", I: k, Nil: true})
@@ -523,8 +529,10 @@ func (g *gen) step1() {
 		if i := g.any(); i >= 0 {
 			g.push(Op{Op: "clear", I: i})
 		}
-	case w < 67:
+	case w < 63:
 		g.mapOp()
+	case w < 67:
+		g.modifyOp()
 	case w < 69:
 		if i := g.pick(uniform); i >= 0 {
 			g.push(Op{Op: "topoints", I: i})
@@ -718,7 +726,7 @@ func (g *gen) noopOp(i int) int {
 					v[c] = 1
 				}
 			}
-			return g.push(Op{Op: "map", Fn: fn, I: i, K: kd, Name: nm, Vec: v, N: g.r.Intn(3)})
+			return g.push(Op{Op: "map", Fn: fn, I: i, K: kd, Name: nm, Vec: v, N: g.poolSize(in.nverts)})
 		}
 	default:
 		e := g.push(Op{Op: "empty", Topo: in.topo})
@@ -732,6 +740,57 @@ func (g *gen) noopOp(i int) int {
 	return -1
 }
 
+// modifyOp: ModifyFloat{1,2,3}Attribute, sequential and with every kind of worker-pool size, each dimension equally often
+func (g *gen) modifyOp() {
+	kd := g.r.Range(1, 3)
+	i := g.pick(func(k int) bool { return len(g.infos[k].attrs[kd]) > 0 })
+	if i < 0 {
+		// nobody carries an attribute of that dimension yet: give one to somebody
+		j := g.any()
+		if j < 0 {
+			return
+		}
+		n := g.infos[j].nverts
+		if n == 0 {
+			n = g.r.Range(1, 5)
+		}
+		i = g.push(Op{Op: "setattr", I: j, K: kd, Name: hx.Pick(g.r, kindNames[kd]), Data: g.rows(n, kd), Spare: g.spare()})
+		if i < 0 {
+			return
+		}
+	}
+	_, nm, ok := g.someAttr(i, kd)
+	if !ok {
+		return
+	}
+	fn := hx.Pick(g.r, []string{"modify.add", "modify.mul", "modify.add", "modify.par"})
+	g.push(Op{Op: "map", Fn: fn, I: i, K: kd, Name: nm, Vec: g.vec(kd, -3, 5), N: g.poolSize(g.infos[i].nverts)})
+}
+
+// poolSize: the worker-pool size of a ...ParallelWithPoolSize call over n elements: 0 = the sequential function, 1 (falls
+// back to it), fewer workers than elements, exactly as many, MORE workers than elements (jobs of size 0)
+func (g *gen) poolSize(n int) int {
+	switch g.r.Intn(7) {
+	case 0, 1:
+		return 0
+	case 2:
+		return 1
+	case 3:
+		if n > 1 {
+			return n
+		}
+		return 2
+	case 4:
+		return n + 1 + g.r.Intn(3)
+	case 5:
+		if n > 2 {
+			return n - 1
+		}
+		return 2
+	}
+	return g.r.Range(2, 4)
+}
+
 func (g *gen) identOp() {
 	i := g.any()
 	if i < 0 {
@@ -743,7 +802,7 @@ func (g *gen) identOp() {
 		g.push(Op{Op: "ident", I: i, Fn: hx.Pick(g.r, []string{"pipeline0", "decimate", "custom"})})
 	case 6:
 		if in.topo == 0 && in.nidx%3 == 0 || in.topo == 1 || (in.topo == 4 && in.nidx > 0) {
-			g.push(Op{Op: "ident", I: i, Fn: "scanprimspar"})
+			g.push(Op{Op: "ident", I: i, Fn: "scanprimspar", N: g.poolSize(in.nidx / 3)})
 		}
 	case 0:
 		g.push(Op{Op: "ident", I: i, Fn: "transform0"})
@@ -765,14 +824,17 @@ func (g *gen) identOp() {
 			if kd == 1 && g.r.Bool() {
 				fn = "scan1par"
 			}
-			g.push(Op{Op: "ident", I: i, Fn: fn, Name: nm})
+			g.push(Op{Op: "ident", I: i, Fn: fn, Name: nm, N: g.poolSize(in.nverts)})
 		}
 	}
 }
 
 func (g *gen) mapOp() {
 	nasty := g.r.Chance(1, 10) // possibly a missing attribute / wrong topology: declared error expected
-	which := g.r.Intn(20)
+	which := g.r.Intn(21)
+	if which == 20 {
+		which = 4 // ModifyFloatN twice as often: three dimensions x sequential / pool sizes
+	}
 	wantKind := g.r.Range(1, 3)
 	// choose the function first, then an operand that qualifies
 	need := func(k int) bool {
@@ -826,11 +888,7 @@ func (g *gen) mapOp() {
 			kd, nm, ok = g.someAttr(i, 0)
 		}
 		if ok && kd <= 3 {
-			n := 0
-			if g.r.Chance(1, 3) {
-				n = g.r.Range(1, 4)
-			}
-			g.push(Op{Op: "map", Fn: hx.Pick(g.r, []string{"modify.add", "modify.mul"}), I: i, K: kd, Name: nm, Vec: g.vec(kd, -3, 5), N: n})
+			g.push(Op{Op: "map", Fn: hx.Pick(g.r, []string{"modify.add", "modify.mul"}), I: i, K: kd, Name: nm, Vec: g.vec(kd, -3, 5), N: g.poolSize(in.nverts)})
 		}
 	case 6:
 		if _, nm, ok := g.someAttr(i, 3); ok {
